@@ -441,7 +441,7 @@ func randActs(r *vlib.Rand, n, nl int) []Action {
 	for i := range out {
 		out[i] = Action{r.Intn(n + 1), r.Intn(nl)}
 		if r.Chance(1, 30) {
-			out[i].Seq = n + 1 + r.Intn(3) // out of range: outside the domain
+			out[i].Seq = n + 1 + r.Intn(3) // out of range: the action is skipped
 		}
 		if r.Chance(1, 40) {
 			out[i].Lookup = nl + r.Intn(2)
